@@ -128,6 +128,7 @@ type Gen struct {
 	updatedInBlk  map[int]bool
 	createdOnce   [NOPS]bool
 	anteCfg       int
+	queued        []Tx // follow-up transactions (the admin re-sending a rejected request with the unsafe flag)
 }
 
 func NewGen(seed uint64, cfg GenCfg) *Gen {
@@ -317,14 +318,25 @@ func (g *Gen) msgCreate(op int, s Snap) Msg {
 	key := op
 	if g.Cfg.Mode == "wild" {
 		switch r.W(70, 10, 8, 6, 6) {
-		case 1: // key of another operator (maybe in use)
+		case 1: // key of another operator (maybe in use), preferably one whose validator was removed and is unbonding
 			key = r.N(NOPS)
+			gone := g.classOps(s, func(o OpInfo) bool { return o.Exists && (o.Status != 3 || o.Tokens == 0) })
+			if len(gone) > 0 && r.P(60) {
+				key = r.Pick(gone)
+			}
 		case 2:
 			key = 100 + op // secp256k1: not allowed by default consensus params
 		case 3:
 			key = -1
 		case 4:
 			key = 100 + r.N(NOPS)
+		}
+	}
+	if g.Cfg.Mode == "envelope" && r.P(10) {
+		// re-registering the consensus key of a validator that was removed and is still unbonding (refused)
+		gone := g.classOps(s, func(o OpInfo) bool { return o.Exists && (o.Status != 3 || o.Tokens == 0) })
+		if len(gone) > 0 {
+			key = r.Pick(gone)
 		}
 	}
 	lens := []int{1 + r.N(10), r.N(5), r.N(5), r.N(5), r.N(5)}
@@ -411,6 +423,11 @@ func (g *Gen) wrap(m Msg) Msg {
 // GenTx produces one transaction given the current snapshot.
 func (g *Gen) GenTx(s Snap, height int64) Tx {
 	r := g.R
+	if len(g.queued) > 0 {
+		tx := g.queued[0]
+		g.queued = g.queued[1:]
+		return tx
+	}
 	envelope := g.Cfg.Mode == "envelope" || g.Cfg.Mode == "calm"
 	kind := r.W(34, 12, 6, 14, 6, 8, 3, 6, 3, 3, 5)
 	if envelope {
@@ -418,6 +435,11 @@ func (g *Gen) GenTx(s Snap, height int64) Tx {
 	}
 	if g.Cfg.Mode == "guard" {
 		kind = r.W(18, 40, 3, 12, 3, 12, 2, 3, 2, 1, 4)
+	}
+	if height == 1 && kind >= 5 {
+		// block 1: the ante gates are open (gentx convention) and a real x/staking message would execute, which
+		// the model does not follow; PoA's own messages and bank sends only
+		kind = []int{0, 1, 2, 3, 4, 10}[r.N(6)]
 	}
 	switch kind {
 	case 0: // SETPOWER
@@ -470,6 +492,10 @@ func (g *Gen) GenTx(s Snap, height int64) Tx {
 		t := g.pickTarget(s)
 		m := g.msgSetPower(s, t)
 		msgs := []Msg{m}
+		if !envelope && signer == -1 && m.Args[2] == "0" && r.P(20) {
+			// what an admin does after "unsafe power" errors: the same request again, with the flag
+			g.queued = append(g.queued, Tx{Signer: -1, Msgs: []Msg{{Kind: "SETPOWER", Args: []string{m.Args[0], m.Args[1], "1"}}}})
+		}
 		if !envelope && r.P(15) { // second message in the same tx
 			t2 := g.pickTarget(s)
 			if r.P(40) {
